@@ -15,6 +15,8 @@ from . import analysis
 rule("C11.a", "persisted attributes (written in __init__, not popped by the writer) are accepted by the constructor", floor=40)
 rule("C11.b", "attributes written outside __init__ (scratch state of set-up) are removed by the writer", floor=2)
 rule("C11.c", "every constructor parameter is persisted under its own name (stored from that parameter, or forwarded to super().__init__)", floor=60)
+rule("C11.n", "a numpy array is written with its own tolist() - exact for every dtype (datetime64[ns] as integer nanoseconds) - not converted to "
+              "time stamps first, which the writer formats to full seconds", floor=1, props=["C11", "C20"])
 rule("C11.l", "objects that are rebuilt by a JSON round trip are compared by value: two entries of self.nodes are 'the same node' when their "
               "names agree - `==` / `!=` / `is` on the Node objects themselves is identity (Node defines no __eq__), true for a node passed twice and "
               "false for the two equal nodes the loader creates: the loaded asset builds another problem", floor=0)
@@ -224,7 +226,7 @@ def _projection(p, ci):
     return None
 
 
-@analysis("serialization", ["C11.a", "C11.b", "C11.c", "C11.d", "C11.e", "C11.f", "C11.g", "C20.k", "C06.j", "C05.l", "C02.g", "C16.j", "C11.k", "C11.l"])
+@analysis("serialization", ["C11.a", "C11.b", "C11.c", "C11.d", "C11.e", "C11.f", "C11.g", "C20.k", "C06.j", "C05.l", "C02.g", "C16.j", "C11.k", "C11.l", "C11.n"])
 def run(ctx):
     p = ctx.p
     ser, writer, reader = _find_hooks(ctx)
@@ -551,6 +553,37 @@ def run(ctx):
     if n_k == 0:
         ctx.ob("C11.k", "package", "tables kept by constructors", True, ok_detail="no constructor keeps DataFrame.to_dict()")
 
+
+    # =========================================================================== C11.n arrays are written exactly
+    n_np = 0
+    for st in au.walk_stmts(writer.body):
+        pairs = []
+        if isinstance(st, ast.Assign) and isinstance(st.targets[0], ast.Subscript) and au.const_str(st.targets[0].slice) == "np_list":
+            pairs.append(st.value)
+        for x in au.walk_own(st):
+            if isinstance(x, ast.Dict):
+                for k, v in zip(x.keys, x.values):
+                    if au.const_str(k) == "np_list":
+                        pairs.append(v)
+        for v in pairs:
+            n_np += 1
+            alts, todo = [], [ctx.resolve(writer, v, st)]
+            while todo:
+                e = todo.pop()
+                if isinstance(e, ast.IfExp):
+                    todo += [e.body, e.orelse]
+                else:
+                    alts.append(e)
+            wparam = writer.params[0].name if writer.params else "obj"
+            bad = [e for e in alts if not (isinstance(e, ast.Call) and au.method_name(e) == "tolist" and isinstance(e.func, ast.Attribute)
+                                           and isinstance(e.func.value, ast.Name) and e.func.value.id == wparam)]
+            ctx.ob("C11.n", writer, "np_list <- %s" % au.short(v, 50), not bad,
+                   "the values of a numpy array are written as %s, not as <array>.tolist(): for a datetime64[ns] array tolist() gives exact integer "
+                   "nanoseconds, while time stamps go through the datetime writer, which keeps full seconds only - order dates with fractions of a "
+                   "second come back truncated and cover other steps (cost vector [48, -48] before saving, [64, -36] after loading)"
+                   % (au.short(bad[0], 50) if bad else ""), node=st)
+    if n_np == 0:
+        ctx.ob("C11.n", writer, "np_list", None, "the writer has no 'np_list' entry (arrays written in another form)")
 
     # =========================================================================== C11.l identity comparisons of nodes
     node_eq = "__eq__" in (p.classes.get("Node").methods if p.classes.get("Node") is not None else {})
